@@ -2786,6 +2786,7 @@ func (p *Posix) PutObject(ctx context.Context, po s3response.PutObjectInput) (s3
 	}
 
 	// if the versioninng is enabled first create the file object version
+	var preserveCurrentVersion bool
 	if p.versioningEnabled() && vStatus != "" && err == nil {
 		var isVersionIdMissing bool
 		if p.isBucketVersioningSuspended(vStatus) {
@@ -2796,10 +2797,10 @@ func (p *Posix) PutObject(ctx context.Context, po s3response.PutObjectInput) (s3
 			isVersionIdMissing = len(vIdBytes) == 0
 		}
 		if !isVersionIdMissing {
-			_, err := p.createObjVersion(*po.Bucket, *po.Key, d.Size(), acct)
-			if err != nil {
-				return s3response.PutObjectOutput{}, fmt.Errorf("create object version: %w", err)
-			}
+			// the copy of the current version is made once the new body
+			// has been received and verified (see below), so that a failed
+			// or unauthenticated upload leaves the version history alone
+			preserveCurrentVersion = true
 		}
 	}
 	if errors.Is(err, syscall.ENAMETOOLONG) {
@@ -2963,6 +2964,13 @@ func (p *Posix) PutObject(ctx context.Context, po s3response.PutObjectInput) (s3
 		err := p.meta.StoreAttribute(f.File(), *po.Bucket, *po.Key, versionIdKey, []byte(versionID))
 		if err != nil {
 			return s3response.PutObjectOutput{}, fmt.Errorf("set versionId attr: %w", err)
+		}
+	}
+
+	if preserveCurrentVersion {
+		_, err := p.createObjVersion(*po.Bucket, *po.Key, d.Size(), acct)
+		if err != nil {
+			return s3response.PutObjectOutput{}, fmt.Errorf("create object version: %w", err)
 		}
 	}
 
